@@ -180,8 +180,16 @@ def pure_writer(ck, module, fn, params, rule='PURE-writer'):
                 # x = param.attr / param.attr[...] / param : an alias of (part of) the object; copies are not
                 if isinstance(v, (ast.Attribute, ast.Subscript, ast.Name)) and base_name(v) in aliases and not isinstance(v, ast.Call):
                     aliases.add(node.targets[0].id)
-            if isinstance(node, ast.For) and base_name(node.iter) in aliases and not isinstance(node.iter, ast.Call):
-                pass
+            if isinstance(node, ast.For):
+                # `for molecule in system.molecules`, `for i, molecule in enumerate(system.molecules)`, `for idx in molecule.sorted_nodes`: what the loop hands out
+                # is part of the written object
+                its = [node.iter]
+                if isinstance(node.iter, ast.Call) and call_name(node.iter) in ('enumerate', 'zip', 'sorted', 'list', 'reversed', 'tuple'):
+                    its = list(node.iter.args)
+                if any(isinstance(i_, (ast.Attribute, ast.Subscript, ast.Name)) and base_name(i_) in aliases for i_ in its):
+                    for t in ast.walk(node.target):
+                        if isinstance(t, ast.Name):
+                            aliases.add(t.id)
     bad = []
     for node in walk_local(fn):
         if isinstance(node, (ast.Subscript, ast.Attribute)) and isinstance(node.ctx, (ast.Store, ast.Del)) and base_name(node) in aliases:
